@@ -6,6 +6,7 @@ Position in the string implies column index.
 """
 
 import re
+import string
 from dataclasses import dataclass
 from typing import Optional, Dict, Any
 
@@ -30,6 +31,26 @@ class FormatSpec:
 
 # Reserved field names that cannot be used for custom captures
 RESERVED_NAMES = {'date', 'amount', 'location', 'description', '_', '*', 'field'}
+
+
+def _template_field_names(template: str) -> list:
+    """
+    Names that str.format() would look up for this template.
+
+    Uses str.format's own field parser, so {name:>10}, {name!r}, {name.attr},
+    {name[0]} and nested specs like {name:{width}} are seen, not only plain {name}.
+
+    Raises:
+        ValueError: If the template is not a valid format string
+    """
+    names = []
+    for _, field_name, format_spec, _ in string.Formatter().parse(template):
+        if field_name is None:
+            continue
+        names.append(re.split(r'[.\[]', field_name, maxsplit=1)[0])
+        if format_spec:
+            names.extend(_template_field_names(format_spec))
+    return names
 
 
 def parse_format_string(format_str: str, description_template: Optional[str] = None) -> FormatSpec:
@@ -148,7 +169,11 @@ def parse_format_string(format_str: str, description_template: Optional[str] = N
 
     # Validate: template references must exist in captures
     if description_template:
-        for ref in re.findall(r'\{(\w+)\}', description_template):
+        try:
+            refs = _template_field_names(description_template)
+        except ValueError as e:
+            raise ValueError(f"Invalid description template '{description_template}': {e}")
+        for ref in refs:
             if ref not in custom_captures:
                 available = ', '.join('{' + k + '}' for k in custom_captures)
                 raise ValueError(
